@@ -165,5 +165,70 @@ class DelayArm(Arm):
         return {"nodes": spec["nodes"], "edges": [[e["s"], e["t"], e["w"], e["d"]] for e in spec["edges"]],
                 "cfg": case["cfg"]}
 
+class AlgChainArm(DelayArm):
+    """structured shape: the delayed source is an ALGEBRAIC output that depends, inside the same evaluation, on an incoming
+    edge from the algebraic output of another node (declared before or after it); it has delayed and undelayed outgoing
+    edges to 2-4 targets of one type (merged under vectorisation).  What is delivered at step k depends on the order in
+    which the buffer is rolled, written and read relative to the equations that define the source."""
+    name = "alg_chain"
+    budget = {"quick": 240, "thorough": 3000}
+    min_per_shard = 10
+    required_labels = ("mixed_delayed_undelayed_from_one_source", "vec", "novec", "alg_source", "driver_declared_later")
 
-ARMS = [DelayArm()]
+    def strategy(self, ctx):
+        @st.composite
+        def case(draw):
+            f1 = draw(st.sampled_from(["tanh", "sin", "sigmoid"]))
+            f2 = draw(st.sampled_from(["sin", "cos", "tanh"]))
+            k1 = draw(st.sampled_from([0.5, 1.5, -0.75]))
+            ops = {
+                "src_op": {"vars": [["x", "state", 0.31], ["inp", "input", 0.0], ["m", "alg", 0.0], ["a", "const", 0.8]],
+                           "eqs": [["m", False, ["bin", "+", ["call", f1, ["var", "inp"]], ["bin", "*", ["num", k1], ["var", "x"]]], 0],
+                                   ["x", True, ["bin", "+", ["bin", "*", ["neg", ["var", "a"]], ["var", "x"]], ["var", "inp"]], 0]],
+                           "out": "m"},
+                "drv_op": {"vars": [["z", "state", -0.42], ["g", "alg", 0.0], ["b", "const", 1.3]],
+                           "eqs": [["g", False, ["call", f2, ["bin", "*", ["var", "b"], ["var", "z"]]], 0],
+                                   ["z", True, ["bin", "-", ["num", 0.7], ["bin", "*", ["var", "b"], ["var", "z"]]], 0]],
+                           "out": "g"},
+                "tgt_op": {"vars": [["r", "state", 0.1], ["rin", "input", 0.0], ["c", "const", 1.1]],
+                           "eqs": [["r", True, ["bin", "+", ["bin", "*", ["neg", ["var", "c"]], ["var", "r"]], ["var", "rin"]], 0]],
+                           "out": "r"}}
+            ntypes = {"src_t": {"ops": ["src_op"], "ov": {}}, "drv_t": {"ops": ["drv_op"], "ov": {}},
+                      "tgt_t": {"ops": ["tgt_op"], "ov": {}}}
+            n_t = draw(st.integers(2, 4))
+            n_src = draw(st.sampled_from([1, 1, 2]))
+            nodes = [[f"s{i}", "src_t"] for i in range(n_src)] + [[f"t{i}", "tgt_t"] for i in range(n_t)] + [["d0", "drv_t"]]
+            nodes = list(draw(st.permutations(nodes)))
+            dt = draw(st.sampled_from([0.01, 0.05]))
+            edges = []
+            for i in range(n_src):
+                edges.append({"s": "d0/drv_op/g", "t": f"s{i}/src_op/inp", "w": draw(st.sampled_from([1.0, 2.0, -1.5])), "d": None,
+                              "sp": None, "et": None, "scope": ""})
+            for j in range(n_t):
+                D = draw(st.sampled_from([None, 2, 3, 5]))
+                if j == 0:
+                    D = D or 3
+                if j == 1:
+                    D = None
+                edges.append({"s": f"s{draw(st.integers(0, n_src - 1))}/src_op/m", "t": f"t{j}/tgt_op/rin",
+                              "w": round(0.4 + 0.37 * j * (-1) ** j, 3), "d": None if D is None else round(D * dt, 6), "sp": None,
+                              "et": None, "scope": ""})
+            if draw(st.booleans()):
+                # the driver is itself driven by a target (a loop through state variables only)
+                edges.append({"s": "t0/tgt_op/r", "t": "s0/src_op/inp", "w": 0.5, "d": None, "sp": None, "et": None, "scope": ""})
+            edges = list(draw(st.permutations(edges)))
+            spec = gen.uniquify_init({"ops": ops, "ntypes": ntypes, "nodes": nodes, "edges": edges, "etypes": {}})
+            return {"spec": spec, "cfg": {"dt": dt, "steps": draw(st.integers(12, 24)),
+                                          "vectorize": draw(st.sampled_from([True, True, False]))}}
+        from ..finding_predicates import repair_case
+        return case().map(lambda c: repair_case(c, ctx))
+
+    def run(self, case, ctx):
+        res = super().run(case, ctx)
+        order = [p for p, _ in case["spec"]["nodes"]]
+        if order.index("d0") > min(i for i, p in enumerate(order) if p.startswith("s")):
+            res.labels = sorted(set(res.labels) | {"driver_declared_later"})
+        return res
+
+
+ARMS = [DelayArm(), AlgChainArm()]
